@@ -34,6 +34,21 @@ type StrictSignedInt interface {
 	Int64 | Int32 | Int16 | Int8
 }
 
+// Raise a strict integer to a positive power with wrap-around
+// semantics using exponentiation by squaring, so that
+// the number of steps is bounded by the bit size of the exponent.
+func StrictIntExponentiate[T StrictInt](base, exponent T) T {
+	var result T = 1
+	for exponent > 0 {
+		if exponent&1 == 1 {
+			result *= base
+		}
+		base *= base
+		exponent >>= 1
+	}
+	return result
+}
+
 // Strict floats are sized and cannot be automatically coerced
 // to other types.
 type StrictFloat interface {
